@@ -259,7 +259,7 @@ func checkC01(w *World, r *Report) {
 	importRules(w, r, checkC07, "C07", "C01.R5", func(o *Obligation) bool {
 		return strings.Contains(o.Key, "drain-starts-at-pill") || strings.Contains(o.Key, "nothing-after-stop")
 	})
-	importRules(w, r, checkC02, "C02", "C01.R5", func(o *Obligation) bool { return o.Rule == "C02.R2" || o.Rule == "C02.R3" || o.Rule == "C02.R1" })
+	importRules(w, r, checkC02, "C02", "C01.R5", func(o *Obligation) bool { return o.Rule == "C02.R2" || o.Rule == "C02.R3" || o.Rule == "C02.R1" || o.Rule == "C02.R7" })
 	// across a crash: the unprocessed rest of the batch is buffered from the cursor, unconditionally, and replayed first
 	importRules(w, r, checkC05, "C05", "C01.R5", func(o *Obligation) bool {
 		return o.Rule == "C05.R3" && strings.Contains(o.Key, "buffer-from-cursor") || o.Rule == "C05.R2" && (strings.Contains(o.Key, "replay-before-inbox") || strings.Contains(o.Key, "clears-replayed-buffer"))
@@ -516,6 +516,36 @@ func checkC09(w *World, r *Report) {
 		r.Check(okL, "C09.R2", "(*actor.Engine).isLocalMessage:address-compare", "a PID is local exactly when its Address equals the engine's address", locSite,
 			"locality is decided by something else than pid.Address == engine address")
 	}
+	// SendLocal skips the nil and address tests: only the dispatcher (behind those tests), the pill sender (the same, with
+	// the tests of Poison/Stop) and the remote's inbound reader (the address was resolved by the sender) may enter it
+	{
+		allowed := map[*ssa.Function]bool{a.esend: true, a.eSendLocal: true}
+		if f := w.Method("actor", "Engine", "sendPoisonPill"); f != nil {
+			allowed[f] = true
+		}
+		var odd []string
+		n := 0
+		for _, fn := range w.Funcs {
+			if !w.isLib(fn) {
+				continue
+			}
+			for _, ci := range w.callsIn(fn, Ev{Name: "SendLocal", M: EvCall("SendLocal", a.eSendLocal).M, Shallow: true}) {
+				n++
+				for _, rt := range w.inlineRoots(fn) {
+					top := rt
+					for top.Parent() != nil {
+						top = top.Parent()
+					}
+					if allowed[top] || (top.Pkg != nil && top.Pkg.Pkg.Name() == "remote") {
+						continue
+					}
+					odd = append(odd, fname(rt)+" at "+w.pos(ci.Pos()))
+				}
+			}
+		}
+		r.Check(len(odd) == 0 && n > 0, "C09.R2", fname(a.eSendLocal)+":callers", "SendLocal (no nil test, no address test) is entered only from the dispatcher, the pill sender and the remote's inbound reader", w.fnPos(a.eSendLocal),
+			"also called by "+strings.Join(odd, "; ")+": a nil or foreign PID reaches the registry lookup and is reported as a dead letter (or delivered to a local actor of the same id) instead of EngineRemoteMissingEvent")
+	}
 	// R3: exported API with *PID parameters
 	pidT := w.Named("actor", "PID")
 	api := map[string][]string{
@@ -672,103 +702,7 @@ func checkC10(w *World, r *Report) {
 	w.exportLock(r, "C10.R1", &lockSpec{named: reg, mutex: "mu", guarded: map[string]bool{"lookup": true}}, w.fnPos(a.regAdd))
 
 	// R2
-	{
-		g := w.FGI(a.regAdd)
-		site := w.fnPos(a.regAdd)
-		var lookupN, insN []int
-		for n, in := range g.ins {
-			switch x := in.(type) {
-			case *ssa.Lookup:
-				if strings.HasSuffix(w.pathOf(x.X), ".lookup") {
-					lookupN = append(lookupN, n)
-				}
-			case *ssa.MapUpdate:
-				if strings.HasSuffix(w.pathOf(x.Map), ".lookup") {
-					insN = append(insN, n)
-				}
-			}
-		}
-		unlock := make([]bool, len(g.ins))
-		lock := make([]bool, len(g.ins))
-		for n, in := range g.ins {
-			if c := callOf(in); c != nil && c.StaticCallee() != nil && c.StaticCallee().Pkg != nil && c.StaticCallee().Pkg.Pkg.Path() == "sync" {
-				switch c.StaticCallee().Name() {
-				case "Unlock", "RUnlock":
-					unlock[n] = true
-				case "Lock":
-					lock[n] = true
-				}
-			}
-		}
-		ok := len(lookupN) == 1 && len(insN) == 1
-		if ok {
-			// no unlock on any path from the membership test to the insert
-			reach := g.reach(g.succ[lookupN[0]], unlock, nil)
-			if !reach[insN[0]] {
-				ok = false
-			}
-			// every path from test to insert avoids unlock: the insert is not reachable through an unlock
-			through := g.reach(g.succ[lookupN[0]], setOf(len(g.ins), insN[0]), nil)
-			for _, u := range members(unlock) {
-				if through[u] && g.reach(g.succ[u], nil, nil)[insN[0]] {
-					ok = false
-				}
-			}
-			// the test is under the write lock
-			if !g.Before(lock, lookupN[0]) {
-				ok = false
-			}
-			// the key tested and the key inserted are the same, the value inserted is the process
-			lk := g.ins[lookupN[0]].(*ssa.Lookup)
-			mu := g.ins[insN[0]].(*ssa.MapUpdate)
-			if w.pathOf(lk.Index) != w.pathOf(mu.Key) || w.pathOf(mu.Value) != "P1" || !strings.HasSuffix(w.pathOf(mu.Key), ".ID") {
-				ok = false
-			}
-		}
-		r.Check(ok, "C10.R2", fname(a.regAdd)+":check-and-insert-atomic", "the id is tested and inserted under one write-lock critical section, with the same key", site,
-			"two concurrent spawns of one id can both pass the test (check and insert are separated by an unlock, or done under a read lock): two live actors answer to one id")
-		// duplicate / inserted edges
-		dup, fresh := g.CondEdges(func(v ssa.Value) (bool, bool) {
-			if e, ok := v.(*ssa.Extract); ok && e.Index == 1 {
-				if lk, ok := e.Tuple.(*ssa.Lookup); ok && strings.HasSuffix(w.pathOf(lk.X), ".lookup") {
-					return true, true
-				}
-			}
-			return false, false
-		})
-		evStart := EvInvoke("Processer.Start", w.IfaceMethod("actor", "Processer", "Start"))
-		S := w.Nodes(g, evStart, false)
-		okD := len(dup) > 0 && len(fresh) > 0
-		dupReach := reachFromEdges(g, dup, nil)
-		for _, n := range members(S) {
-			if dupReach[n] || !g.OnlyVia(fresh, n) {
-				okD = false
-			}
-			// Start outside the lock: an unlock precedes it on every path
-			if !g.Before(unlock, n) {
-				okD = false
-			}
-		}
-		for _, n := range insN {
-			if dupReach[n] {
-				okD = false
-			}
-		}
-		r.Check(okD && anyOf(S), "C10.R2", fname(a.regAdd)+":start-only-if-inserted", "Start runs only on the inserted edge and after the lock was released; the duplicate edge neither writes nor starts", site,
-			"a losing spawn starts a second actor (its Producer runs) or overwrites the existing entry; or Start runs under the registry lock (a Started handler that spawns deadlocks)")
-		w.checkRow(r, row{rule: "C10.R2", fn: a.regAdd, callee: w.evBroadcast("actor", "ActorDuplicateIdEvent"), name: "BroadcastEvent(ActorDuplicateIdEvent)",
-			args:   []string{"~.engine", "lit:ActorDuplicateIdEvent{PID=call:Processer.PID(P1)}"},
-			why:    "A duplicate spawn is not reported (or reported for the wrong PID).",
-			excuse: func(g *FG) []Edge { return fresh }, only: func(g *FG) []Edge { return dup }})
-		// every lock is released on the duplicate edge before the event (BroadcastEvent sends to the event stream)
-		okU := true
-		for _, ci := range w.callsIn(a.regAdd, EvCall("BroadcastEvent", a.eBroadcast)) {
-			if !g.Before(unlock, g.idx[ci.(ssa.Instruction)]) {
-				okU = false
-			}
-		}
-		r.Check(okU, "C10.R2", fname(a.regAdd)+":event-outside-lock", "the duplicate event is published after the lock was released", site, "BroadcastEvent runs under the registry lock")
-	}
+	checkRegistryAdd(w, r, "C10.R2", a)
 	// R3
 	{
 		var writers []string
@@ -886,6 +820,11 @@ func checkC10(w *World, r *Report) {
 		}
 		r.Check(ok, "C10.R6", fname(pr.stopFn)+":releases-id", "Registry.Remove(p.pid) precedes the Stopped delivery on every path of the stop function", w.fnPos(pr.stopFn),
 			"a stopped actor whose Stopped handler panics stays registered: GetPID keeps answering and the id can never be spawned again")
+	}
+	// (and not earlier than that: an id released while the actor still waits for its children can be spawned again
+	// next to the old, still living incarnation)
+	if r.Prop == "C10" {
+		importRules(w, r, checkC08, "C08", "C10.R6", func(o *Obligation) bool { return o.Rule == "C08.R1" && strings.HasSuffix(o.Key, ":children-first") })
 	}
 	// R7: a process that was unregistered never comes back: it is not restarted after the budget
 	// was exhausted and its inbox is not reopened after cleanup (it would run cleanup again and
@@ -1724,4 +1663,104 @@ func splitTop(s string, sep byte) []string {
 		}
 	}
 	return append(out, s[start:])
+}
+
+// checkRegistryAdd: the test-and-insert of Registry.add (C10.R2; C07 needs it too: the PID a duplicate spawn hands back must
+// keep naming the live actor).
+func checkRegistryAdd(w *World, r *Report, rule string, a *sendAnchors) {
+	g := w.FGI(a.regAdd)
+	site := w.fnPos(a.regAdd)
+	var lookupN, insN []int
+	for n, in := range g.ins {
+		switch x := in.(type) {
+		case *ssa.Lookup:
+			if strings.HasSuffix(w.pathOf(x.X), ".lookup") {
+				lookupN = append(lookupN, n)
+			}
+		case *ssa.MapUpdate:
+			if strings.HasSuffix(w.pathOf(x.Map), ".lookup") {
+				insN = append(insN, n)
+			}
+		}
+	}
+	unlock := make([]bool, len(g.ins))
+	lock := make([]bool, len(g.ins))
+	for n, in := range g.ins {
+		if c := callOf(in); c != nil && c.StaticCallee() != nil && c.StaticCallee().Pkg != nil && c.StaticCallee().Pkg.Pkg.Path() == "sync" {
+			switch c.StaticCallee().Name() {
+			case "Unlock", "RUnlock":
+				unlock[n] = true
+			case "Lock":
+				lock[n] = true
+			}
+		}
+	}
+	ok := len(lookupN) == 1 && len(insN) == 1
+	if ok {
+		// no unlock on any path from the membership test to the insert
+		reach := g.reach(g.succ[lookupN[0]], unlock, nil)
+		if !reach[insN[0]] {
+			ok = false
+		}
+		// every path from test to insert avoids unlock: the insert is not reachable through an unlock
+		through := g.reach(g.succ[lookupN[0]], setOf(len(g.ins), insN[0]), nil)
+		for _, u := range members(unlock) {
+			if through[u] && g.reach(g.succ[u], nil, nil)[insN[0]] {
+				ok = false
+			}
+		}
+		// the test is under the write lock
+		if !g.Before(lock, lookupN[0]) {
+			ok = false
+		}
+		// the key tested and the key inserted are the same, the value inserted is the process
+		lk := g.ins[lookupN[0]].(*ssa.Lookup)
+		mu := g.ins[insN[0]].(*ssa.MapUpdate)
+		if w.pathOf(lk.Index) != w.pathOf(mu.Key) || w.pathOf(mu.Value) != "P1" || !strings.HasSuffix(w.pathOf(mu.Key), ".ID") {
+			ok = false
+		}
+	}
+	r.Check(ok, rule, fname(a.regAdd)+":check-and-insert-atomic", "the id is tested and inserted under one write-lock critical section, with the same key", site,
+		"two concurrent spawns of one id can both pass the test (check and insert are separated by an unlock, or done under a read lock): two live actors answer to one id")
+	// duplicate / inserted edges
+	dup, fresh := g.CondEdges(func(v ssa.Value) (bool, bool) {
+		if e, ok := v.(*ssa.Extract); ok && e.Index == 1 {
+			if lk, ok := e.Tuple.(*ssa.Lookup); ok && strings.HasSuffix(w.pathOf(lk.X), ".lookup") {
+				return true, true
+			}
+		}
+		return false, false
+	})
+	evStart := EvInvoke("Processer.Start", w.IfaceMethod("actor", "Processer", "Start"))
+	S := w.Nodes(g, evStart, false)
+	okD := len(dup) > 0 && len(fresh) > 0
+	dupReach := reachFromEdges(g, dup, nil)
+	for _, n := range members(S) {
+		if dupReach[n] || !g.OnlyVia(fresh, n) {
+			okD = false
+		}
+		// Start outside the lock: an unlock precedes it on every path
+		if !g.Before(unlock, n) {
+			okD = false
+		}
+	}
+	for _, n := range insN {
+		if dupReach[n] || !g.OnlyVia(fresh, n) {
+			okD = false
+		}
+	}
+	r.Check(okD && anyOf(S), rule, fname(a.regAdd)+":start-only-if-inserted", "Start runs only on the inserted edge and after the lock was released; the duplicate edge neither writes nor starts", site,
+		"a losing spawn starts a second actor (its Producer runs) or overwrites the existing entry; or Start runs under the registry lock (a Started handler that spawns deadlocks)")
+	w.checkRow(r, row{rule: rule, fn: a.regAdd, callee: w.evBroadcast("actor", "ActorDuplicateIdEvent"), name: "BroadcastEvent(ActorDuplicateIdEvent)",
+		args:   []string{"~.engine", "lit:ActorDuplicateIdEvent{PID=call:Processer.PID(P1)}"},
+		why:    "A duplicate spawn is not reported (or reported for the wrong PID).",
+		excuse: func(g *FG) []Edge { return fresh }, only: func(g *FG) []Edge { return dup }})
+	// every lock is released on the duplicate edge before the event (BroadcastEvent sends to the event stream)
+	okU := true
+	for _, ci := range w.callsIn(a.regAdd, EvCall("BroadcastEvent", a.eBroadcast)) {
+		if !g.Before(unlock, g.idx[ci.(ssa.Instruction)]) {
+			okU = false
+		}
+	}
+	r.Check(okU, rule, fname(a.regAdd)+":event-outside-lock", "the duplicate event is published after the lock was released", site, "BroadcastEvent runs under the registry lock")
 }
